@@ -318,10 +318,13 @@ def _job(job):
                                     lambda k: ['  block', '    use %s, only : vfv => %s' % (module_for(lib, info[k][0]), info[k][3]),
                                                '    print "(A,I0,A,I0)", "V ", %d, " ", vfv' % k, '  end block'],
                                     ["program p"], ["end program p"], items)
+        out["tables"] = []      # (enum text, C name, C value or error, Fortran name, Fortran value or error) - used by C04
         for k in items:
             e, m, cname, fname, cxx = info[k]
             out["n"] += 1
             want = cxx_vals.get(k)
+            out["tables"].append((enum_text(e), cname, c_vals.get(k) if k not in c_err else "error", fname,
+                                  f_vals.get(k) if k not in f_err else "error", e))
             if want is None:
                 raise core.HarnessError("no C++ value for %s" % cxx)
             if want != m["value"]:
